@@ -29,53 +29,73 @@ func fan(c *core.Ctx, fn, dm *core.Fn) {
 		}
 		return true
 	})
-	// worker literal: the one calling decoderMain
+	// the fan-out region: decode itself, or (one level) a function of this package that decode calls
 	var worker, sup *ast.FuncLit
 	var dmCall *ast.CallExpr
-	var stack []ast.Node
-	ast.Inspect(body, func(n ast.Node) bool {
-		if n == nil {
-			stack = stack[:len(stack)-1]
-			return false
-		}
-		stack = append(stack, n)
-		if call, ok := n.(*ast.CallExpr); ok && dm != nil && core.CalleeFunc(info, call) == dm.Obj {
-			dmCall = call
-			var lits []*ast.FuncLit
-			for _, s := range stack {
-				if fl, ok := s.(*ast.FuncLit); ok {
-					lits = append(lits, fl)
+	find := func(root ast.Node) bool {
+		var stack []ast.Node
+		worker, sup, dmCall = nil, nil, nil
+		ast.Inspect(root, func(n ast.Node) bool {
+			if n == nil {
+				stack = stack[:len(stack)-1]
+				return false
+			}
+			stack = append(stack, n)
+			if call, ok := n.(*ast.CallExpr); ok && dm != nil && core.CalleeFunc(info, call) == dm.Obj {
+				var lits []*ast.FuncLit
+				for _, s := range stack {
+					if fl, ok := s.(*ast.FuncLit); ok {
+						lits = append(lits, fl)
+					}
+				}
+				if len(lits) >= 2 {
+					dmCall, worker, sup = call, lits[len(lits)-1], lits[len(lits)-2]
 				}
 			}
-			if len(lits) >= 2 {
-				worker, sup = lits[len(lits)-1], lits[len(lits)-2]
-			}
+			return true
+		})
+		return worker != nil
+	}
+	bind := map[types.Object]types.Object{} // object of the region -> object of decode
+	toDecode := func(o types.Object) types.Object {
+		if b, ok := bind[o]; ok {
+			return b
 		}
-		return true
-	})
+		return o
+	}
+	var helperCall *ast.CallExpr
+	if !find(body) {
+		for _, call := range core.Calls(body, info, func(*ast.CallExpr, types.Object) bool { return true }) {
+			h := c.FnOf(core.CalleeFunc(info, call))
+			if h == nil || h.Decl.Body == nil || h.Pkg != fn.Pkg || h.Obj == fn.Obj || (dm != nil && h.Obj == dm.Obj) || !find(h.Decl.Body) {
+				continue
+			}
+			helperCall = call
+			c.Functions[h.Name()] = true
+			i := 0
+			for _, f := range h.Decl.Type.Params.List {
+				for _, nm := range f.Names {
+					if i < len(call.Args) {
+						if o := core.ObjOf(info, call.Args[i]); o != nil {
+							bind[info.Defs[nm]] = o
+						}
+					}
+					i++
+				}
+			}
+			break
+		}
+	}
 	if ipipe == nil || worker == nil || len(dmCall.Args) != 2 {
-		c.Undecidedf("R4.worker", "decode", fn.Decl.Pos(), "expected NewRDBLoader and a worker literal (inside a supervising goroutine) calling decoderMain(in, out)")
+		c.Undecidedf("R4.worker", "decode", fn.Decl.Pos(), "expected NewRDBLoader and a worker literal (inside a supervising goroutine, in decode or in one helper it calls) calling decoderMain(in, out)")
 		return
 	}
-	opipe = core.ObjOf(info, dmCall.Args[1])
-	c.Check("R4.worker", "decode/channels", dmCall.Pos(), core.ObjOf(info, dmCall.Args[0]) == ipipe && opipe != nil && opipe != ipipe && c07.Within(identPos(opipe), body),
+	opipeR := core.ObjOf(info, dmCall.Args[1]) // the output channel as the region names it
+	opipe = toDecode(opipeR)
+	c.Check("R4.worker", "decode/channels", dmCall.Pos(), toDecode(core.ObjOf(info, dmCall.Args[0])) == ipipe && opipe != nil && opipe != ipipe && c07.Within(identPos(opipe), body),
 		"every worker must consume the loader's channel and produce into the one output channel that the writer drains")
 	gw := cfgq.OfLit(c.Program, info, worker)
 	gs := cfgq.OfLit(c.Program, info, sup)
-	// token channel: the channel received from in the supervisor
-	var group types.Object
-	var await *ast.ForStmt
-	core.Inspect(sup, func(n ast.Node) bool {
-		if u, ok := n.(*ast.UnaryExpr); ok && u.Op == token.ARROW {
-			group = core.ObjOf(info, u.X)
-			for _, a := range core.PathTo(sup, u) {
-				if f, ok := a.(*ast.ForStmt); ok {
-					await = f
-				}
-			}
-		}
-		return true
-	})
 	var spawn *ast.ForStmt
 	var goStmt *ast.GoStmt
 	core.Inspect(sup, func(n ast.Node) bool {
@@ -89,11 +109,10 @@ func fan(c *core.Ctx, fn, dm *core.Fn) {
 		}
 		return true
 	})
-	if group == nil || await == nil || spawn == nil || goStmt == nil {
-		c.Undecidedf("R4.bounds", "decode", sup.Pos(), "expected a counted spawn loop with `go <worker>` and a counted loop receiving the workers' tokens")
-		return
-	}
 	bound := func(f *ast.ForStmt) ast.Expr {
+		if f == nil || f.Cond == nil {
+			return nil
+		}
 		b := pat.Expr("_i < _n").Match(info, f.Cond, nil)
 		if b == nil || f.Post == nil || f.Init == nil {
 			return nil
@@ -103,38 +122,6 @@ func fan(c *core.Ctx, fn, dm *core.Fn) {
 		}
 		return nil
 	}
-	bs, ba := bound(spawn), bound(await)
-	switch {
-	case bs == nil || ba == nil:
-		c.Undecidedf("R4.bounds", "decode", sup.Pos(), "loop bounds not of the form `i < n`")
-	case pat.Same(info, bs, ba):
-		c.Okf("R4.bounds", "decode", sup.Pos(), "workers spawned and tokens awaited are both bounded by `%s`", c.Src(bs))
-	default:
-		c.Failf("R4.bounds", "decode", await.Pos(), "%s workers are spawned but %s tokens are awaited: with fewer tokens the output channel is closed while workers still send (panic / lost lines), with more the run never ends", c.Src(bs), c.Src(ba))
-	}
-	// one receive per await iteration
-	ah, ab := c07.RangeBlocks(gs, await)
-	isRecv := func(n ast.Node) bool {
-		found := false
-		core.Inspect(n, func(m ast.Node) bool {
-			if u, ok := m.(*ast.UnaryExpr); ok && u.Op == token.ARROW && core.ObjOf(info, u.X) == group {
-				found = true
-			}
-			return !found
-		})
-		return found
-	}
-	var post *cfg.Block
-	for _, b := range gs.CFG.Blocks {
-		if b.Kind == cfg.KindForPost && b.Stmt == ast.Stmt(await) {
-			post = b
-		}
-	}
-	if post == nil {
-		post = ah
-	}
-	c.Check("R4.token", "decode/await-each", await.Pos(), !c07.ReachBlock(gs, cfgq.Point{B: ab}, false, isRecv, post), "every iteration of the await loop must receive one token")
-	// worker: token only when decoderMain has returned, on every exit
 	isDM := func(n ast.Node) bool {
 		for _, call := range cfgq.ExecCalls(n) {
 			if call == dmCall {
@@ -143,23 +130,130 @@ func fan(c *core.Ctx, fn, dm *core.Fn) {
 		}
 		return false
 	}
-	sendsToken := func(root ast.Node) bool {
-		found := false
-		core.InspectAll(root, func(m ast.Node) bool {
-			if s, ok := m.(*ast.SendStmt); ok && core.ObjOf(info, s.Chan) == group {
-				found = true
+	// the join: either tokens on a channel counted by an await loop, or a sync.WaitGroup
+	var direct func(ast.Node) bool        // the worker hands in its token / calls Done
+	var contains func(root ast.Node) bool // root contains such a signal
+	var joined func(ast.Node) bool        // node of the supervisor after which all workers are known to be finished
+	var joinNode ast.Node
+	var group types.Object
+	var await *ast.ForStmt
+	core.Inspect(sup, func(n ast.Node) bool {
+		if u, ok := n.(*ast.UnaryExpr); ok && u.Op == token.ARROW {
+			group = core.ObjOf(info, u.X)
+			for _, a := range core.PathTo(sup, u) {
+				if f, ok := a.(*ast.ForStmt); ok {
+					await = f
+				}
 			}
-			return !found
-		})
-		return found
+		}
+		return true
+	})
+	isWG := func(call *ast.CallExpr, method string) types.Object {
+		if f := core.CalleeFunc(info, call); core.IsFunc(f, "sync", "WaitGroup", method) {
+			return core.ObjOf(info, call.Fun.(*ast.SelectorExpr).X)
+		}
+		return nil
 	}
-	direct := func(n ast.Node) bool { s, ok := n.(*ast.SendStmt); return ok && core.ObjOf(info, s.Chan) == group }
+	var wg types.Object
+	for _, call := range core.CallsAll(worker, info, func(call *ast.CallExpr, _ types.Object) bool { return isWG(call, "Done") != nil }) {
+		wg = isWG(call, "Done")
+	}
+	switch {
+	case group != nil && await != nil && spawn != nil && goStmt != nil:
+		bs, ba := bound(spawn), bound(await)
+		switch {
+		case bs == nil || ba == nil:
+			c.Undecidedf("R4.bounds", "decode", sup.Pos(), "loop bounds not of the form `i < n`")
+		case pat.Same(info, bs, ba):
+			c.Okf("R4.bounds", "decode", sup.Pos(), "workers spawned and tokens awaited are both bounded by `%s`", c.Src(bs))
+		default:
+			c.Failf("R4.bounds", "decode", await.Pos(), "%s workers are spawned but %s tokens are awaited: with fewer tokens the output channel is closed while workers still send (panic / lost lines), with more the run never ends", c.Src(bs), c.Src(ba))
+		}
+		ah, ab := c07.RangeBlocks(gs, await)
+		isRecv := func(n ast.Node) bool {
+			found := false
+			core.Inspect(n, func(m ast.Node) bool {
+				if u, ok := m.(*ast.UnaryExpr); ok && u.Op == token.ARROW && core.ObjOf(info, u.X) == group {
+					found = true
+				}
+				return !found
+			})
+			return found
+		}
+		var post *cfg.Block
+		for _, b := range gs.CFG.Blocks {
+			if b.Kind == cfg.KindForPost && b.Stmt == ast.Stmt(await) {
+				post = b
+			}
+		}
+		if post == nil {
+			post = ah
+		}
+		c.Check("R4.token", "decode/await-each", await.Pos(), !c07.ReachBlock(gs, cfgq.Point{B: ab}, false, isRecv, post), "every iteration of the await loop must receive one token")
+		direct = func(n ast.Node) bool { s, ok := n.(*ast.SendStmt); return ok && core.ObjOf(info, s.Chan) == group }
+		contains = func(root ast.Node) bool {
+			found := false
+			core.InspectAll(root, func(m ast.Node) bool {
+				if s, ok := m.(*ast.SendStmt); ok && core.ObjOf(info, s.Chan) == group {
+					found = true
+				}
+				return !found
+			})
+			return found
+		}
+		joined, joinNode = c07.IsNode(await.Cond), await.Cond
+		if c07.Within(goStmt, await) {
+			joinNode = nil
+		}
+	case wg != nil && spawn != nil && goStmt != nil:
+		isCall := func(method string) func(ast.Node) bool {
+			return func(n ast.Node) bool {
+				if _, isD := n.(*ast.DeferStmt); isD {
+					return false
+				}
+				for _, call := range cfgq.ExecCalls(n) {
+					if isWG(call, method) == wg {
+						return true
+					}
+				}
+				return false
+			}
+		}
+		waits := gs.Points(isCall("Wait"))
+		adds := core.Calls(sup, info, func(call *ast.CallExpr, _ types.Object) bool { return isWG(call, "Add") == wg })
+		if len(waits) != 1 || len(adds) != 1 {
+			c.Undecidedf("R4.bounds", "decode", sup.Pos(), "expected one Wait and one Add on the workers' WaitGroup in the supervising goroutine, found %d/%d", len(waits), len(adds))
+			return
+		}
+		bs := bound(spawn)
+		switch {
+		case c07.Within(adds[0], spawn.Body):
+			v, isC := core.IntConst(info, adds[0].Args[0])
+			c.Check("R4.bounds", "decode", adds[0].Pos(), isC && v == 1, "wg.Add inside the spawn loop must add exactly 1 per worker: otherwise the output channel is closed while workers still send, or the run never ends")
+		case bs == nil:
+			c.Undecidedf("R4.bounds", "decode", sup.Pos(), "spawn loop bound not of the form `i < n`")
+		case pat.Same(info, c07.Strip(info, bs), c07.Strip(info, adds[0].Args[0])):
+			c.Okf("R4.bounds", "decode", sup.Pos(), "workers spawned and WaitGroup count are both `%s`", c.Src(bs))
+		default:
+			c.Failf("R4.bounds", "decode", adds[0].Pos(), "%s workers are spawned but the WaitGroup counts %s: with fewer the output channel is closed while workers still send (panic / lost lines), with more the run never ends", c.Src(bs), c.Src(adds[0].Args[0]))
+		}
+		c.Okf("R4.token", "decode/await-each", waits[0].Node().Pos(), "WaitGroup.Wait returns only when every worker has called Done")
+		direct = isCall("Done")
+		contains = func(root ast.Node) bool {
+			return len(core.CallsAll(root, info, func(call *ast.CallExpr, _ types.Object) bool { return isWG(call, "Done") == wg })) > 0
+		}
+		joined, joinNode = isCall("Wait"), waits[0].Node()
+	default:
+		c.Undecidedf("R4.bounds", "decode", sup.Pos(), "expected a counted spawn loop with `go <worker>` and either a loop receiving the workers' tokens or a sync.WaitGroup")
+		return
+	}
+	// worker: signal only when decoderMain has returned, on every exit
 	deferred := func(n ast.Node) bool {
 		d, ok := n.(*ast.DeferStmt)
-		if !ok || !sendsToken(d.Call) {
+		if !ok || !contains(d.Call) {
 			return false
 		}
-		if fl, isLit := d.Call.Fun.(*ast.FuncLit); isLit { // defer func() { ... group <- x ... }(): the send must be on every path of the literal
+		if fl, isLit := d.Call.Fun.(*ast.FuncLit); isLit { // defer func() { ... signal ... }(): the signal must be on every path of the literal
 			gd := cfgq.OfLit(c.Program, info, fl)
 			okAll, _ := c07.MustPass(gd, gd.Entry(), false, direct)
 			return okAll
@@ -168,7 +262,7 @@ func fan(c *core.Ctx, fn, dm *core.Fn) {
 	}
 	okTok, w := c07.MustPass(gw, gw.Entry(), false, cfgq.Or(deferred, direct))
 	if okTok {
-		// a deferred token must be registered before decoderMain can panic/return: it must dominate the call
+		// a deferred signal must be registered before decoderMain can panic/return: it must precede the call
 		for _, p := range gw.Points(deferred) {
 			if w2 := gw.Path(cfgq.Query{From: p, After: true, Target: isDM}); w2 == nil {
 				okTok, w = false, []string{"the deferred token is registered after decoderMain"}
@@ -186,27 +280,26 @@ func fan(c *core.Ctx, fn, dm *core.Fn) {
 		}
 	}
 	c.Check("R4.token", "decode/token-after-work", worker.Pos(), wEarly == nil, "a worker hands in its token before decoderMain has returned: the supervisor closes the output channel while this worker still sends (panic) or its remaining lines are lost", wEarly...)
-	// close(opipe) only after all tokens, on every exit
-	isClose := func(n ast.Node) bool { return c07.BuiltinCallOn(info, n, "close", opipe) }
+	// close(opipe) only after the join, on every exit
+	isClose := func(n ast.Node) bool { return c07.BuiltinCallOn(info, n, "close", opipeR) }
 	okC, wc := c07.MustPass(gs, gs.Entry(), false, isClose)
 	c.Check("R4.close-output", "decode/always", sup.Pos(), okC, "the output channel must be closed on every exit of the supervisor, or the writer and decode never finish", wc...)
-	awaitCond := c07.IsNode(await.Cond)
 	var wOrder []string
 	for _, p := range gs.Points(isClose) {
 		if _, isD := p.Node().(*ast.DeferStmt); isD {
-			if ok, wp := c07.MustPass(gs, gs.Entry(), false, awaitCond); !ok {
+			if ok, wp := c07.MustPass(gs, gs.Entry(), false, joined); !ok {
 				wOrder = wp
 			}
-		} else if ok, wp := gs.Dominated(p, awaitCond); !ok {
+		} else if ok, wp := gs.Dominated(p, joined); !ok {
 			wOrder = wp
-		} else if c07.Within(p.Node(), await.Body) || c07.Within(p.Node(), spawn) {
+		} else if await != nil && c07.Within(p.Node(), await.Body) || c07.Within(p.Node(), spawn) {
 			wOrder = []string{"close inside the spawn/await loop"}
 		}
 	}
-	if gs.Path(cfgq.Query{From: mustFind(gs, await.Cond), After: true, Target: c07.IsNode(goStmt)}) != nil {
-		wOrder = []string{"a worker is spawned after the await loop started"}
+	if joinNode == nil || gs.Path(cfgq.Query{From: mustFind(gs, joinNode), After: true, Target: c07.IsNode(goStmt)}) != nil {
+		wOrder = []string{"a worker is spawned after the join started"}
 	}
-	c.Check("R4.close-output", "decode/after-all-tokens", sup.Pos(), wOrder == nil, "the output channel may be closed only after the await loop collected every worker's token: closed earlier, workers panic on send or their lines are lost", wOrder...)
+	c.Check("R4.close-output", "decode/after-all-tokens", sup.Pos(), wOrder == nil, "the output channel may be closed only after the join collected every worker's token / Done: closed earlier, workers panic on send or their lines are lost", wOrder...)
 	// writer goroutine: the literal that takes the messages off the output channel, by `for s := range opipe` or by
 	// `for { s, ok := <-opipe; if !ok { break }; ... }`
 	var wl *ast.FuncLit
@@ -260,7 +353,7 @@ func fan(c *core.Ctx, fn, dm *core.Fn) {
 		})
 	}
 	core.InspectAll(body, func(n ast.Node) bool {
-		if id, ok := n.(*ast.Ident); ok && info.Uses[id] == opipe && !used[id] && !c07.Within(id, sup) {
+		if id, ok := n.(*ast.Ident); ok && info.Uses[id] == opipe && !used[id] && !c07.Within(id, sup) && !(helperCall != nil && c07.Within(id, helperCall)) {
 			if call, isCall := parentCall(body, id); !isCall || !isLenCap(info, call) {
 				otherBad++
 			}
